@@ -990,3 +990,172 @@ Lemma demo7_auto_completed :
   exists r, auto real_consts (Some 2) (Some 2) None demo7 = (demo7_after, Ok r) /\ ar_status r = 2
             /\ map cr_seq (ar_result r) = [5; 7].
 Proof. vm_compute. eexists. split; [reflexivity|]. split; reflexivity. Qed.
+
+(* ---------- … and in every interleaving: each summary written during a race is a cut_read value ---------- *)
+Definition is_prefix {A} (a b : list A) : Prop := exists r, b = a ++ r.
+Lemma prefix_refl {A} (a : list A) : is_prefix a a.
+Proof. exists []. rewrite app_nil_r. reflexivity. Qed.
+Lemma prefix_trans {A} (a b c : list A) : is_prefix a b -> is_prefix b c -> is_prefix a c.
+Proof. intros [r ->] [q ->]. exists (r ++ q). rewrite app_assoc. reflexivity. Qed.
+Lemma prefix_app {A} (a b : list A) : is_prefix a (a ++ b).
+Proof. exists b. reflexivity. Qed.
+
+(* v was read for cut p by a job whose snapshot is `snap`, at a moment `cur` of the race: snap is a prefix of that
+   moment's stream, which is a prefix of stream l *)
+Definition read_at (K : consts) (l : list ev) (snap : list ev) (p : plan) (v : summ) : Prop :=
+  exists cur, is_prefix snap (log cur) /\ is_prefix (log cur) l /\ cut_read K snap cur p = Ok v.
+
+Lemma read_at_mono K l fr snap p v : read_at K l snap p v -> read_at K (l ++ fr) snap p v.
+Proof.
+  intros [cur [H1 [H2 H3]]]. exists cur. split; [exact H1|]. split; [|exact H3].
+  eapply prefix_trans; [exact H2 | apply prefix_app].
+Qed.
+
+Definition aF (K : consts) (l : list ev) (a : astate) : Prop :=
+  match a with
+  | ACut _ _ snap _ _ => is_prefix snap l
+  | AWrite _ _ snap p v _ _ => is_prefix snap l /\ read_at K l snap p v
+  | _ => True
+  end.
+
+Lemma aF_mono K l fr a : aF K l a -> aF K (l ++ fr) a.
+Proof.
+  destruct a; cbn [aF]; auto.
+  - intros H. eapply prefix_trans; [exact H | apply prefix_app].
+  - intros [H1 H2]. split; [eapply prefix_trans; [exact H1 | apply prefix_app] | apply read_at_mono, H2].
+Qed.
+
+(* the checkpoint frames of `new` reference readable summaries that were read that way *)
+Definition fed_ckpts (K : consts) (s : st) (new : list ev) : Prop :=
+  forall e r a ts tm, In e new -> ebody e = BCkpt r a ts (Some tm) ->
+    exists snap p v, art_read s a = Some v /\ read_at K (log s) snap p v /\ pl_seq p = ts /\ pl_mid p = tm.
+
+Lemma fed_ckpts_grow K s s' new :
+  (exists fr, log s' = log s ++ fr) -> (forall a v, art_read s a = Some v -> art_read s' a = Some v) ->
+  fed_ckpts K s new -> fed_ckpts K s' new.
+Proof.
+  intros [fr Hl] Ha H e r a ts tm Hin Hb. destruct (H e r a ts tm Hin Hb) as [snap [p [v [Hr [Hat [H1 H2]]]]]].
+  exists snap, p, v. split; [apply Ha, Hr|]. split; [rewrite Hl; apply read_at_mono, Hat|]. split; assumption.
+Qed.
+
+Lemma fed_step K s a new :
+  aF K (log s) a -> fed_ckpts K s new ->
+  exists fr, log (fst (astep K s a)) = log s ++ fr /\ aF K (log s ++ fr) (snd (astep K s a))
+             /\ fed_ckpts K (fst (astep K s a)) (new ++ fr).
+Proof.
+  intros Ha Hg.
+  assert (Hread : forall a', aF K (log s) a' ->
+            exists fr, log (fst (s, a')) = log s ++ fr /\ aF K (log s ++ fr) (snd (s, a')) /\ fed_ckpts K (fst (s, a')) (new ++ fr)).
+  { intros a' Ha'. exists []. rewrite !app_nil_r. cbn [fst snd]. auto. }
+  assert (Happ : forall b a', aF K (log s) a' -> (forall r x ts tm, b <> BCkpt r x ts (Some tm)) ->
+            exists fr, log (fst (append s b, a')) = log s ++ fr /\ aF K (log s ++ fr) (snd (append s b, a'))
+                       /\ fed_ckpts K (fst (append s b, a')) (new ++ fr)).
+  { intros b a' Ha' Hb. eexists. cbn [fst snd]. split; [reflexivity|]. split; [apply aF_mono, Ha'|].
+    intros e r x ts tm Hin Hbody. apply in_app_or in Hin. destruct Hin as [Hin|[<-|[]]].
+    - revert e r x ts tm Hin Hbody. apply (fed_ckpts_grow K s (append s b) new); [eexists; reflexivity | auto | exact Hg].
+    - cbn [ebody] in Hbody. exfalso. eapply Hb, Hbody. }
+  destruct a; unfold astep; cbn [astep_gen].
+  - destruct (c_sched c); [destruct (plan_cuts K (c_stride c) (c_maxnew c) (log s))|]; apply Hread; exact I.
+  - destruct (if c_block c then find_inflight K (log s) else None); apply Hread; exact I.
+  - apply Happ; [exact I | discriminate].
+  - destruct (plan_cuts K (c_stride c) (c_maxnew c) (log s)); apply Hread; exact I.
+  - destruct (c_sched c); (apply Happ; [exact I | discriminate]).
+  - destruct (c_exec c); (apply Happ; [exact I | discriminate]).
+  - apply Hread. cbn [aF]. apply prefix_refl.
+  - cbn [aF] in Ha. destruct todo as [|p rest]; [apply Hread; exact I|].
+    destruct (cut_read K snap s p) as [v|e] eqn:E; apply Hread; [|exact I].
+    cbn [aF]. split; [exact Ha|]. exists s. split; [exact Ha|]. split; [apply prefix_refl | exact E].
+  - (* AWrite *)
+    cbn [aF] in Ha. destruct Ha as [Hpre Hat]. cbv beta iota zeta delta [put_art]. cbn [fst snd].
+    eexists. split; [reflexivity|]. split; [cbn [aF]; eapply prefix_trans; [exact Hpre | apply prefix_app]|].
+    set (s1 := {| log := log s; arts := arts s ++ [(fresh_art s, v)] |}).
+    assert (Hkeep : forall a w, art_read s a = Some w -> art_read (append s1 (BCkpt (rule_stride (c_stride c)) (fresh_art s) (pl_seq p) (Some (pl_mid p)))) a = Some w).
+    { intros a w Hw. unfold art_read in *. unfold append, s1. cbn [arts].
+      destruct (art_get a (arts s)) as [w'|] eqn:Ew; [|discriminate].
+      rewrite (art_get_app_some a (arts s) _ w' Ew). exact Hw. }
+    intros e r x ts tm Hin Hb. apply in_app_or in Hin. destruct Hin as [Hin|[<-|[]]].
+    + revert e r x ts tm Hin Hb.
+      apply (fed_ckpts_grow K s _ new); [eexists; unfold append, s1; cbn [log]; reflexivity | exact Hkeep | exact Hg].
+    + cbn [ebody] in Hb. injection Hb as _ <- <- <-. exists snap, p, v.
+      split; [|split; [apply (read_at_mono K (log s) _ snap p v Hat) | split; reflexivity]].
+      destruct Hat as [cur [_ [_ Hr]]]. apply cut_read_covers in Hr. destruct Hr as [_ [_ [H3 _]]].
+      unfold art_read, append, s1. cbn [arts]. rewrite art_get_app_fresh by (apply fresh_art_not_key). rewrite H3. reflexivity.
+  - apply Happ; [exact I | discriminate].
+  - apply Hread. destruct ms; exact I.
+  - destruct ms as [|[ac co] rest]; [apply Hread; exact I|]. apply Happ; [destruct rest; exact I | discriminate].
+  - apply Hread. exact I.
+Qed.
+
+Definition fed_ok (K : consts) (s0 s : st) (acts : list astate) : Prop :=
+  Forall (aF K (log s)) acts /\ exists new, log s = log s0 ++ new /\ fed_ckpts K s new.
+
+Lemma fed_ok_step K s0 s pre a post :
+  fed_ok K s0 s (pre ++ a :: post) -> fed_ok K s0 (fst (astep K s a)) (pre ++ snd (astep K s a) :: post).
+Proof.
+  intros [Hf [new [Hl Hg]]]. apply Forall_app in Hf. destruct Hf as [Hpre Hf]. inversion Hf as [|a0 l0 Ha Hpost]; subst.
+  destruct (fed_step K s a new Ha Hg) as [fr [Hl' [Ha' Hg']]]. split.
+  - rewrite Hl'. apply Forall_app. split; [|constructor; [exact Ha'|]].
+    + eapply Forall_impl; [|exact Hpre]. intros x. apply aF_mono.
+    + eapply Forall_impl; [|exact Hpost]. intros x. apply aF_mono.
+  - exists (new ++ fr). split; [rewrite Hl', Hl, app_assoc; reflexivity | exact Hg'].
+Qed.
+
+Theorem fed_ok_steps K s0 x y : sys_steps K x y -> fed_ok K s0 (fst x) (snd x) -> fed_ok K s0 (fst y) (snd y).
+Proof.
+  induction 1 as [|x y z H1 H2 IH]; intros H; [exact H|]. apply IH. destruct H1. cbn [fst snd] in *.
+  apply fed_ok_step, H.
+Qed.
+
+(* every interleaving of calls and message appenders: every checkpoint frame appended during the race references a
+   readable summary that is `cut_read K snap cur p` for the frame's cut p = (to_seq, to_message_id), the snapshot `snap`
+   of the job that wrote it and a moment `cur` of the race (snap a prefix of cur's stream, that a prefix of the final one) *)
+Theorem concurrent_summaries_fed K s calls s' acts' :
+  sys_steps K (s, map start_of calls) (s', acts') ->
+  exists new, log s' = log s ++ new /\ fed_ckpts K s' new.
+Proof.
+  intros H. apply (fed_ok_steps K s _ _ H). cbn [fst snd]. split.
+  - clear H. induction calls as [|c r IH]; [constructor|]. constructor; [destruct c; exact I | exact IH].
+  - exists []. rewrite app_nil_r. split; [reflexivity|]. intros e r a ts tm [].
+Qed.
+
+(* the hypotheses of c09_summary_feeds pass to prefixes *)
+Lemma prefix_summary_hyps (a b : list ev) :
+  is_prefix a b -> valid b -> Forall (fun c => ck_to c <> 0) (ckpts b) ->
+  msorted a /\ Forall (fun c => ck_to c <> 0) (ckpts a).
+Proof.
+  intros [r ->] Hv Hc. split.
+  - apply valid_msgs_sorted. unfold valid in *. rewrite map_app in Hv.
+    clear Hc. induction (map eseq a) as [|x l IH]; [constructor|]. cbn [app] in Hv. inversion Hv as [|y l' Hs Hx]; subst.
+    constructor; [apply IH, Hs|]. apply Forall_app in Hx. apply Hx.
+  - rewrite ckpts_app in Hc. apply Forall_app in Hc. apply Hc.
+Qed.
+
+(* capstone: from any state the modelled operations reach on a fresh thread, through any interleaving: every checkpoint
+   frame appended during the race references a readable summary v = cut_read K snap cur p with p the frame's cut, and
+   (snap, cur) meet the hypotheses of c09_summary_feeds — so v's base, note, slice and coverage are what that theorem says *)
+Theorem concurrent_summary_feeds K ops calls s' acts' :
+  sys_steps K (fst (run_ops K st0 ops []), map start_of calls) (s', acts') ->
+  exists new, log s' = log (fst (run_ops K st0 ops [])) ++ new
+    /\ forall e r a ts tm, In e new -> ebody e = BCkpt r a ts (Some tm) ->
+       exists snap cur p v,
+         art_read s' a = Some v /\ cut_read K snap cur p = Ok v /\ pl_seq p = ts /\ pl_mid p = tm
+         /\ is_prefix snap (log cur) /\ is_prefix (log cur) (log s')
+         /\ msorted snap /\ Forall (fun c => ck_to c <> 0) (ckpts snap).
+Proof.
+  intros H. destruct (concurrent_summaries_fed K _ calls s' acts' H) as [new [Hl Hf]].
+  destruct (concurrent_summary_hyps K ops calls s' acts' H) as [_ Hck].
+  assert (Hv : valid (log s')).
+  { apply (valid_steps K _ _ H). cbn [fst]. apply (reachable_valid K ops st0 []), valid_st0. }
+  exists new. split; [exact Hl|]. intros e r a ts tm Hin Hb.
+  destruct (Hf e r a ts tm Hin Hb) as [snap [p [v [Hr [[cur [H1 [H2 H3]]] [Hs Hm]]]]]].
+  exists snap, cur, p, v. split; [exact Hr|]. split; [exact H3|]. split; [exact Hs|]. split; [exact Hm|].
+  split; [exact H1|]. split; [exact H2|].
+  apply (prefix_summary_hyps snap (log s')); [eapply prefix_trans; eassumption | exact Hv | exact Hck].
+Qed.
+
+(* non-vacuity: the race of CompactionProofs (two schedule calls, both checkpoint cut 2) is such an interleaving *)
+Lemma race_is_interleaving :
+  sys_steps real_consts (fst (run_ops real_consts st0 [OMsg 0 1; OMsg 1 2] []), map start_of [SCall race_call; SCall race_call])
+            (run_sched real_consts race_state [AStart race_call; AStart race_call] [0; 1; 0; 1; 0; 0; 0; 0; 1; 1; 1; 1])
+  /\ map ck_to (ckpts (log race_end)) = [2; 2].
+Proof. split; [apply (run_sched_steps real_consts _ race_state) | vm_compute; reflexivity]. Qed.
